@@ -105,14 +105,34 @@ Definition set_head (c : Z) (l : list Z) : list Z := match l with [] => [] | _ :
 Definition head_is (c : Z) (l : list Z) : bool := match l with x :: _ => x =? c | [] => false end.
 Fixpoint down (n : nat) : list Z := match n with O => [] | S k => Z.of_nat k :: down k end.
 
+(* ---------- named arithmetic kernels ----------
+   Each of these is re-derived from the source on every run (translate/gen_c18.py -> Gen/C18.v) and proved equal
+   to the regenerated definition in Bridge/C18.v; the model functions below are written in terms of them. *)
+Definition m_fill : Z := -1.                                   (* np.full(total, -1) *)
+Definition m_dot_fill : Z := 0.                                (* index_array[dots] = 0 *)
+Definition m_dot_offset : Z := 1.                              (* offset[dots[0]] = 1 *)
+Definition m_bump (length offset : Z) : Z := length - offset.  (* lengths[..] - offset_.. added at a row start *)
+Definition m_pow10 (p : Z) : Z := 10 ^ p.                      (* 10**power_array, before the dtype's wrap-around *)
+Definition m_signed (neg : bool) (v : Z) : Z := v * (if neg then -1 else 1).      (* value * np.where(is_negative,-1,+1) *)
+Definition m_digit (a pw : Z) : Z := (a / pw) mod 10.          (* magnitude // powers % 10 *)
+Definition m_frac_digits (length col : Z) : Z := length - col - 1.                 (* digits after the point *)
+Definition m_dec_den (f : Z) : Z := 10 ^ f.                    (* 10.**exponents *)
+Definition m_sci_mant_end (c : Z) : Z := c.                    (* ragged_slice(text, ends=cols) *)
+Definition m_sci_exp_start (c : Z) : Z := c + 1.               (* ragged_slice(text, starts=cols+1) *)
+Definition m_row_len (sum_lengths n_items : Z) : Z := sum_lengths + n_items.       (* joined row: texts + separators *)
+Definition m_join_len (length : Z) : Z := length + 1.          (* a text and its separator *)
+Definition m_n_fill (w l : Z) : Z := w - l.                    (* '0' cells left of a right-aligned field *)
+Definition m_window_index (e w j : Z) : Z := e - w + j.        (* data index shown in column j of the digit matrix *)
+Definition m_row_start (i w : Z) : Z := i * w.                 (* flat position of row i of a row-major matrix *)
+
 (* ---------- _build_power_array (strops.py:20-54) ----------
    A ragged shape is given by its rows: (length, columns holding a '.').
      index_array = full(total, -1); index_array[dots] = 0
      index_array[cumsum(lengths)[:-1]] += lengths[1:] - offset_rest ; index_array[0] += lengths[0] - offset_0
      cumsum(index_array) ; reshape by the row lengths                                     *)
 Definition row_init (r : Z * list Z) : list Z :=
-  map (fun j => if existsb (Z.eqb j) (snd r) then 0 else -1) (arange (fst r)).
-Definition row_offset (r : Z * list Z) : Z := match snd r with [] => 0 | _ => 1 end.
+  map (fun j => if existsb (Z.eqb j) (snd r) then m_dot_fill else m_fill) (arange (fst r)).
+Definition row_offset (r : Z * list Z) : Z := match snd r with [] => 0 | _ => m_dot_offset end.
 Definition row_starts (lengths : list Z) : list Z :=
   match lengths with [] => [] | _ => 0 :: removelast (cumsum lengths) end.
 (* a[idx] += vals  (NumPy fancy-index semantics: for a repeated index the last value wins) *)
@@ -134,7 +154,7 @@ Fixpoint split_rows {A} (lengths : list Z) (flat : list A) : list (list A) :=
 Definition index_array (rows : list (Z * list Z)) : list Z :=
   let lengths := map fst rows in
   cumsum (scatter_add_from 0 (row_starts lengths)
-                           (map (fun r => fst r - row_offset r) rows)
+                           (map (fun r => m_bump (fst r) (row_offset r)) rows)
                            (concat (map row_init rows))).
 Definition power_rows (rows : list (Z * list Z)) : list (list Z) :=
   split_rows (map fst rows) (index_array rows).
@@ -164,7 +184,7 @@ Fixpoint encode_rows (ts : list (list Z)) : option (list (list Z)) :=
   end.
 Fixpoint dotp (ds ps : list Z) : Z :=
   match ds, ps with d :: ds', p :: ps' => d * p + dotp ds' ps' | _, _ => 0 end.
-Definition pow10_i64 (p : Z) : Z := wrap64 (10 ^ p).          (* 10**p on an int64 array *)
+Definition pow10_i64 (p : Z) : Z := wrap64 (m_pow10 p).          (* 10**p on an int64 array *)
 Fixpoint zip3 {A B C} (a : list A) (b : list B) (c : list C) : list (A * B * C) :=
   match a, b, c with x :: a', y :: b', z :: c' => (x, y, z) :: zip3 a' b' c' | _, _, _ => [] end.
 
@@ -172,7 +192,7 @@ Fixpoint zip3 {A B C} (a : list A) (b : list B) (c : list C) : list (A * B * C) 
 Definition strip_sign (t : list Z) : list Z :=
   if head_is 45 t || head_is 43 t then set_head 48 t else t.
 Definition str_to_int_row (t ds ps : list Z) : Z :=
-  wrap64 (wrap64 (dotp ds (map pow10_i64 ps)) * (if head_is 45 t then -1 else 1)).
+  wrap64 (m_signed (head_is 45 t) (wrap64 (dotp ds (map pow10_i64 ps)))).
 Definition str_to_int_rows (texts : list (list Z)) : option (list Z) :=
   match encode_rows (map strip_sign texts) with
   | None => None
@@ -184,7 +204,7 @@ Definition str_to_int_rows (texts : list (list Z)) : option (list Z) :=
 (* ---------- str_to_int on the right-aligned digit matrix (file_buffers.py:21-31, 355-376;
    strops.py:105-109): used for an integer column of a file when no field starts with a sign ---------- *)
 Definition max_len (texts : list (list Z)) : Z := fold_right Z.max 0 (map len texts).
-Definition pad_left (w : Z) (t : list Z) : list Z := repeat 48 (Z.to_nat (w - len t)) ++ t.
+Definition pad_left (w : Z) (t : list Z) : list Z := repeat 48 (Z.to_nat (m_n_fill w (len t))) ++ t.
 Definition str_to_int_matrix (texts : list (list Z)) : option (list Z) :=
   let w := max_len texts in
   match encode_rows (map (pad_left w) texts) with
@@ -239,7 +259,7 @@ Definition ints_to_strings_gen (width mag pw10 : Z -> Z) (ns : list Z) : list (l
   let lengths := map (fun n => width n + b2z (n <? 0)) ns in
   let pw := power_rows (plain_shape lengths) in
   map (fun '(n, row) =>
-         let t := map (fun p => 48 + (mag n / pw10 p) mod 10) row in
+         let t := map (fun p => 48 + m_digit (mag n) (pw10 p)) row in
          if n <? 0 then set_head 45 t else t)
       (combine ns pw).
 Definition ints_to_strings_pinned := ints_to_strings_gen width_log10 abs_i64 pow10_i64.
@@ -251,7 +271,7 @@ Definition int_lists_to_strings_gen (fmt : list Z -> list (list Z)) (sep : Z) (r
   let strings := fmt (concat rows) in
   let lens := split_rows (map len rows) (map len strings) in
   let joined := join_keep_last sep strings in
-  let row_lens := map (fun '(ls, r) => sumZ ls + len r) (combine lens rows) in
+  let row_lens := map (fun '(ls, r) => m_row_len (sumZ ls) (len r)) (combine lens rows) in
   map (@removelast Z) (split_rows row_lens joined).
 Definition int_lists_to_strings_pinned := int_lists_to_strings_gen ints_to_strings_pinned.
 Definition int_lists_to_strings := int_lists_to_strings_gen ints_to_strings.
@@ -288,7 +308,7 @@ Definition dec_prepare (plus : bool) (t : list Z) : list Z :=
       (if head_is 45 t || (plus && head_is 43 t) then set_head 48 t else t).
 Definition dec_row (t ds ps : list Z) : bool * Z * Z :=
   (head_is 45 t, dotp ds (map (Z.pow 10) ps),
-   match rev (dot_cols t) with c :: _ => len t - c - 1 | [] => 0 end).
+   match rev (dot_cols t) with c :: _ => m_frac_digits (len t) c | [] => 0 end).
 Definition decimal_rows (plus : bool) (texts : list (list Z)) : option (list (bool * Z * Z)) :=
   match encode_rows (map (dec_prepare plus) texts) with
   | None => None
